@@ -111,8 +111,18 @@ class Lengths:
                     add = IV(0, add.hi)
                 extra = _add(extra, add)
         if base is None:
-            if name in f.params:
-                return TOP
+            # the variable of `for x in <list parameter>`: one of the elements the call sites put into that list
+            for n in body_nodes(f.node):
+                if isinstance(n, ast.For) and isinstance(n.target, ast.Name) and n.target.id == name and isinstance(n.iter, ast.Name) and n.iter.id in f.params:
+                    out: t.Optional[IV] = None
+                    for caller, arg in self.list_args(f, n.iter.id, 0):
+                        if arg is None:
+                            return TOP
+                        for el in arg.elts:
+                            iv = self.exprlen(caller, el, arg, depth + 1)
+                            out = iv if out is None else out.join(iv)
+                    if out is not None:
+                        return out
             return TOP
         del res
         return _add(base, extra)
@@ -165,6 +175,8 @@ class Lengths:
                 hi = res.iv_of(a[1] if len(a) > 1 else a[0])
                 n = _add(hi, IV(None if lo.hi is None else -lo.hi, None if lo.lo is None else -lo.lo))
                 out = _mul(out, n.meet(IV(0, None)))
+            elif isinstance(loop, ast.For) and isinstance(loop.iter, ast.Name) and loop.iter.id in f.params and self.list_count(f, loop.iter.id) != TOP:
+                out = _mul(out, self.list_count(f, loop.iter.id).meet(IV(0, None)))
             elif isinstance(loop, ast.For):
                 # one trip per element: len(<iterable>) where the analysis knows it (grammar facts, slices of known lists)
                 n = res._len_iv(loop.iter, res.env_at(loop.iter), 0)
